@@ -122,6 +122,12 @@ def main(tier):
         cyc = [
             ("cyclic", "a = [1]; a.push(a); a"), ("cyclic", "dd = {}; dd.x = dd; dd"), ("cyclic", "a = [1]; b = {'k': a}; a.push(b); a"),
             ("cyclic", "dd = {}; dd.k = [dd]; dd"), ("cyclic", "a = []; b = [a]; a.push(b); [a, b]"),
+            # cycles whose back edge sits in a computed value's attribute map, alone and mixed with lists / dicts
+            ("cyclic", "zz = {'k': 1}; &cc = this.x; &cc.x = zz; zz.c = &cc; zz"), ("cyclic", "&cc = 1; &cc.me = &cc; &cc"),
+            ("cyclic", "a = [1]; &cc = 2; &cc.arr = a; a.push(&cc); a"), ("cyclic", "dd = {}; &c1 = 1; &c2 = 2; &c1.o = &c2; &c2.o = &c1; dd.c = &c1; dd"),
+            ("cyclic", "a = [1]; &cc = 2; &cc.arr = [{'k': [a]}]; a.push({'c': [&cc]}); [0, a]"),
+            ("acyclic", "zz = {'k': 1}; &cc = this.x; &cc.x = zz; [&cc, zz, &cc]"), ("acyclic", "&c1 = 1; &c2 = 2; &c2.o = &c1; [&c1, &c2, &c1, {'k': &c2}]"),
+            ("acyclic", "a = [1]; &cc = 2; &cc.p = a; &cc.q = a; [a, &cc, a]"),
             ("acyclic", "a = [1]; b = [a]; cc = [b, b]; cc"), ("acyclic", "a = [1]; [a, a, [a]]"), ("acyclic", "a = {'k': 1}; [a, {'m': a}, a]"),
             ("acyclic", "a = [1]; b = [a, a]; cc = [b, a, b]; {'x': cc, 'y': cc}"), ("acyclic", "e = []; [e, e]"),
         ]
